@@ -1051,6 +1051,30 @@ def m_map(i, args, kw, st, node):
     return UNK
 
 
+def m_a2b_base64(i, args, kw, st, node):
+    v = args[0] if args else None
+    if isinstance(v, (bytes, bytearray, str)) and len(args) == 1 and not kw:
+        try:
+            return binascii.a2b_base64(v if isinstance(v, str) else bytes(v))
+        except (binascii.Error, ValueError):
+            i._diverged = i.do_raise("binascii.Error", st, node)
+            return UNK
+    return ABytes(None, "bytes")
+
+
+def m_math(name, typ):
+    def f(i, args, kw, st, node):
+        import math
+        if args and all(isinstance(a, (int, float)) and not isinstance(a, bool) for a in args) and not kw:
+            try:
+                return getattr(math, name)(*args)
+            except (ValueError, OverflowError, ZeroDivisionError) as e:
+                i._diverged = i.do_raise(type(e).__name__, st, node)
+                return UNK
+        return Unknown(typ) if typ else UNK
+    return f
+
+
 def m_filter(i, args, kw, st, node):
     if len(args) == 2 and isinstance(args[1], (tuple, list, range)) and len(args[1]) <= 64:
         out = []
@@ -1129,10 +1153,10 @@ EXT_MODELS = {
     "struct.calcsize": lambda i, a, k, s, n: struct.calcsize(a[0]) if a and isinstance(a[0], str) else Unknown("int"),
     "binascii.unhexlify": m_unhexlify, "binascii.hexlify": m_hexlify,
     "binascii.a2b_hex": m_unhexlify, "binascii.b2a_hex": m_hexlify,
-    "binascii.a2b_base64": lambda i, a, k, s, n: ABytes(None, "bytes"),
-    "binascii.b2a_base64": lambda i, a, k, s, n: ABytes(None, "bytes"),
+    "binascii.a2b_base64": m_a2b_base64,
+    "binascii.b2a_base64": lambda i, a, k, s, n: binascii.b2a_base64(bytes(a[0]), **dict((x, y) for x, y in k.items() if isinstance(y, bool))) if a and isinstance(a[0], (bytes, bytearray)) and len(a) == 1 else ABytes(None, "bytes"),
     "os.urandom": m_urandom,
-    "math.ceil": m_unknown("int"), "math.log": m_unknown(None),
+    "math.ceil": m_math("ceil", "int"), "math.floor": m_math("floor", "int"), "math.log": m_math("log", None), "math.sqrt": m_math("sqrt", None),
     "float": m_unknown(None),
     "math.gcd": lambda i, a, k, s, n: __import__("math").gcd(*a) if a and all(isinstance(x, int) for x in a) else Unknown("int"),
     "math.isqrt": lambda i, a, k, s, n: __import__("math").isqrt(a[0]) if a and isinstance(a[0], int) and a[0] >= 0 else Unknown("int"),
